@@ -288,6 +288,13 @@ def cases(tier, seed):
         cid = "reorder:%s:%s:%s" % (path, p, m)
         if cid not in have:
             out.append({"id": cid, "op": op, "path": path, "member": None, "perm": p, "mode": m, "seed": seed, "thorough": T})
+    # scaling a font opened with lazy=True whose GPOS has arrays of more than 8 fixed-size records
+    # (read lazily as LazyList): every record must still be visited
+    for path, t in (("merge/data/CFFFont2.ttx", "double"), ("merge/data/CFFFont2.ttx", "ratio"),
+                    ("ttLib/data/TestVGID-Regular.otf", "double"), ("varLib/data/MutatorSans_All_Variable.ttx", "double")):
+        cid = "scale:%s:%s:%s" % (path, t, "bin-lazy")
+        if cid not in {c["id"] for c in out}:
+            out.append({"id": cid, "op": "scale", "path": path, "member": None, "target": t, "mode": "bin-lazy", "seed": seed, "thorough": T})
     return out
 
 
@@ -405,6 +412,82 @@ def _involved(font, order):
             s.add(g)
             uniq.append(g)
     return uniq, sorted(feats), sorted(scripts), nlookups
+
+
+def _targeted_pairs(font, order, rnd, cap=700):
+    """Input inspection: glyph pairs that address individual records of the GPOS arrays
+    (every PairValueRecord of long PairSets first, one pair per class pair, each mark with
+    a base / ligature / mark of its lookup, consecutive cursive glyphs), so that a record
+    left untouched in a long (lazily read) array is exercised by some text."""
+    names = set(order)
+    if "GPOS" not in font:
+        return []
+    try:
+        lookups = font["GPOS"].table.LookupList.Lookup
+    except Exception:
+        return []
+    long_pairs, pairs = [], []
+
+    def sub(st):
+        return getattr(st, "ExtSubTable", st)
+
+    try:
+        for lk in lookups:
+            for st in lk.SubTable:
+                st = sub(st)
+                cls = type(st).__name__
+                if cls == "PairPos" and st.Format == 1:
+                    for a, ps in zip(st.Coverage.glyphs, st.PairSet):
+                        recs = list(ps.PairValueRecord)
+                        dst = long_pairs if len(recs) > 8 else pairs
+                        for r in recs:
+                            dst.append((a, r.SecondGlyph))
+                elif cls == "PairPos" and st.Format == 2:
+                    c1, c2 = st.ClassDef1.classDefs, st.ClassDef2.classDefs
+                    by1, by2 = {}, {}
+                    for g in st.Coverage.glyphs:
+                        by1.setdefault(c1.get(g, 0), g)
+                    for g, k in c2.items():
+                        by2.setdefault(k, g)
+                    for g in order:
+                        if g not in c2:
+                            by2.setdefault(0, g)
+                            break
+                    dst = long_pairs if (len(by1) > 8 or len(by2) > 8) else pairs
+                    for a in by1.values():
+                        for b in by2.values():
+                            dst.append((a, b))
+                elif cls in ("MarkBasePos", "MarkLigPos", "MarkMarkPos"):
+                    mcov = getattr(st, "MarkCoverage", None) or getattr(st, "Mark1Coverage", None)
+                    bcov = getattr(st, "BaseCoverage", None) or getattr(st, "LigatureCoverage", None) or getattr(st, "Mark2Coverage", None)
+                    if mcov is None or bcov is None:
+                        continue
+                    marks, bases = list(mcov.glyphs), list(bcov.glyphs)
+                    dst = long_pairs if (len(marks) > 8 or len(bases) > 8) else pairs
+                    for i, m in enumerate(marks):
+                        dst.append((bases[i % len(bases)], m))
+                    for i, b in enumerate(bases):
+                        dst.append((b, marks[i % len(marks)]))
+                elif cls == "CursivePos":
+                    gl = list(st.Coverage.glyphs)
+                    dst = long_pairs if len(gl) > 8 else pairs
+                    for a, b in zip(gl, gl[1:] + gl[:1]):
+                        dst.append((a, b))
+                elif cls == "SinglePos":
+                    gl = list(st.Coverage.glyphs)
+                    dst = long_pairs if len(gl) > 8 else pairs
+                    for a in gl:
+                        dst.append((a,))
+    except Exception:
+        pass
+    long_pairs = [t for t in dict.fromkeys(long_pairs) if all(g in names for g in t)]
+    pairs = [t for t in dict.fromkeys(pairs) if all(g in names for g in t)]
+    if len(long_pairs) > cap:
+        long_pairs = rnd.sample(long_pairs, cap)
+    room = max(0, cap - len(long_pairs))
+    if len(pairs) > room:
+        pairs = rnd.sample(pairs, room)
+    return long_pairs + pairs
 
 
 def _texts(rnd, involved, order, thorough):
@@ -685,7 +768,9 @@ def _compare_reordered(ctx, case, rnd, R0, B1, order0, new, tech, tabs, mode):
     # ---- shaping -------------------------------------------------------------
     insp = _load_inspect(ctx, case, R0)
     involved, feats, scripts, nl = _involved(insp, order0)
-    texts = _texts(rnd, involved, order0, case.get("thorough"))
+    targeted = _targeted_pairs(insp, order0, rnd)
+    texts = targeted + _texts(rnd, involved, order0, case.get("thorough"))
+    ctx.note("reorder:targeted-gpos-record-texts", len(targeted))
     n_active = 0
     for script, features in _shape_configs(feats, scripts):
         for vloc in [None] + (_hb_locations(H0, rnd, 1)[:1] if "fvar" in tabs else []):
@@ -1425,6 +1510,9 @@ def _compare_scaled(ctx, case, rnd, R0, B1, order, tech, tabs, mode, U, U1, T0):
     texts = _texts(rnd, involved, order, case.get("thorough"))
     if len(texts) > 1200:
         texts = texts[:len(involved)] + rnd.sample(texts[len(involved):], 1200 - len(involved)) if len(involved) < 1200 else texts[:1200]
+    targeted = _targeted_pairs(insp, order, rnd)
+    texts = targeted + texts
+    ctx.note("scale:targeted-gpos-record-texts", len(targeted))
     idx = {g: i for i, g in enumerate(order)}
     n_active = 0
     shape_locs = [None]
